@@ -36,7 +36,11 @@ func dirtyScript(rng *Rng, id string, withNext, canPanic bool) []Action {
 		case 0, 1:
 			s = append(s, Action{Op: "set", S: "k" + fmt.Sprint(rng.Intn(3)), V: "dirty-" + id})
 		case 2:
-			s = append(s, Action{Op: "adderr", S: "err-" + id})
+			if rng.Chance(1, 4) {
+				s = append(s, Action{Op: "adderrn", S: "err-" + id + "-", N: []int{2, 15, 16, 17, 33, 70}[rng.Intn(6)]})
+			} else {
+				s = append(s, Action{Op: "adderr", S: "err-" + id})
+			}
 		case 3:
 			s = append(s, Action{Op: "setparam", S: "id", V: "dirty"})
 		case 4:
